@@ -27,6 +27,20 @@ var verifDir = func() string {
 	return "/verif"
 }()
 
+// repoDir is the tree the encoding is generated from and the replays run in: /repo for every registered command.
+// GOSMT_REPO_DIR is a development aid (evaluating a seeded change in a scratch worktree while /repo stays as it is,
+// e.g. while a long background run reads it); a run with it set leaves evidence/<id>.json alone.
+var repoDir = func() string {
+	if d := os.Getenv("GOSMT_REPO_DIR"); d != "" {
+		return d
+	}
+	return "/repo"
+}()
+
+// witnessRel is where witness files go, relative to verifDir: evidence/witness for a full run on /repo, a scratch
+// directory for partial runs and runs against a scratch tree (so that they leave the committed witnesses alone).
+var witnessRel = filepath.Join("evidence", "witness")
+
 func main() {
 	if len(os.Args) < 2 {
 		fmt.Println("usage: gosmt run <property> [--tier quick|thorough] | replay <witness.json> | debug <property>")
@@ -94,7 +108,7 @@ func loadProgram(prop string) (*symex.Program, error) {
 		return nil
 	})
 	f := onlyFilter(prop)
-	return symex.Load(symex.LoadConfig{RepoDir: "/repo", HarnessDir: filepath.Join(verifDir, "harness"), RTDir: filepath.Join(verifDir, "rt/verifrt"),
+	return symex.Load(symex.LoadConfig{RepoDir: repoDir, HarnessDir: filepath.Join(verifDir, "harness"), RTDir: filepath.Join(verifDir, "rt/verifrt"),
 		Only: func(dir, file string) bool { return dirsWith[dir] && f(dir, file) }})
 }
 
@@ -184,6 +198,9 @@ func runCmd(args []string) int {
 	onlyH := fs.String("only", "", "run only harnesses whose name contains this")
 	noReplay := fs.Bool("no-replay", false, "")
 	fs.Parse(args[1:])
+	if *onlyH != "" || repoDir != "/repo" {
+		witnessRel = filepath.Join(".work", "witness")
+	}
 	if t := os.Getenv("VERIF_TIER"); t != "" && *tierName == "" {
 		*tierName = t
 	}
@@ -254,7 +271,7 @@ func runCmd(args []string) int {
 	wg.Wait()
 
 	// replay (witness files of earlier runs of this property are removed first)
-	if old, _ := filepath.Glob(filepath.Join(verifDir, "evidence", "witness", prop+"-*.json")); old != nil {
+	if old, _ := filepath.Glob(filepath.Join(verifDir, witnessRel, prop+"-*.json")); old != nil {
 		for _, f := range old {
 			os.Remove(f)
 		}
@@ -343,9 +360,9 @@ func runCmd(args []string) int {
 		fmt.Println(l)
 	}
 	wall := time.Since(t0)
-	if *onlyH != "" {
-		// a partial run (development aid) must not replace the evidence of the full check
-		fmt.Printf("gosmt: --only %s: partial run, evidence/%s.json left as it is\n", *onlyH, prop)
+	if *onlyH != "" || repoDir != "/repo" {
+		// a partial run, or a run against a scratch tree (development aids), must not replace the evidence of the full check
+		fmt.Printf("gosmt: --only %q / repo %s: evidence/%s.json left as it is\n", *onlyH, repoDir, prop)
 	} else {
 		writeEvidence(prop, tc, seed, results, violations, validated, spurious, wall, known)
 	}
@@ -510,7 +527,7 @@ type replayer struct {
 func newReplayer(p *symex.Program, prop string) *replayer {
 	w := filepath.Join(verifDir, ".work", fmt.Sprintf("%s-%d", prop, os.Getpid()))
 	os.MkdirAll(w, 0755)
-	os.MkdirAll(filepath.Join(verifDir, "evidence", "witness"), 0755)
+	os.MkdirAll(filepath.Join(verifDir, witnessRel), 0755)
 	return &replayer{p: p, prop: prop, work: w, bins: map[string]string{}, errs: map[string]string{}}
 }
 
@@ -553,13 +570,13 @@ func (r *replayer) build(h *ssa.Function) (string, error) {
 	for virt, real := range r.p.Overlay {
 		ov[virt] = real
 	}
-	ov[filepath.Join("/repo", rel, "zz_verif_replay_test.go")] = testFile
+	ov[filepath.Join(repoDir, rel, "zz_verif_replay_test.go")] = testFile
 	ovData, _ := json.Marshal(map[string]interface{}{"Replace": ov})
 	ovFile := filepath.Join(r.work, strings.ReplaceAll(rel, "/", "_")+"_overlay.json")
 	os.WriteFile(ovFile, ovData, 0644)
 	bin := filepath.Join(r.work, strings.ReplaceAll(rel, "/", "_")+".test")
 	cmd := exec.Command("go", "test", "-c", "-tags", "verif", "-vet=off", "-overlay", ovFile, "-o", bin, "./"+rel)
-	cmd.Dir = "/repo"
+	cmd.Dir = repoDir
 	cmd.Env = goEnv()
 	out, err := cmd.CombinedOutput()
 	if err != nil {
@@ -600,9 +617,9 @@ func (r *replayer) replay(h *ssa.Function, c *symex.Candidate) (string, string) 
 	if c.Kind == "sample" {
 		path = filepath.Join(r.work, fmt.Sprintf("sample-%d.json", n))
 	} else {
-		rel = filepath.Join("evidence", "witness", fmt.Sprintf("%s-%s-%d.json", r.prop, h.Name(), n))
+		rel = filepath.Join(witnessRel, fmt.Sprintf("%s-%s-%d.json", r.prop, h.Name(), n))
 		if c.Kind == "hang" {
-			rel = filepath.Join("evidence", "witness", fmt.Sprintf("%s-%s-hang-%d.json", r.prop, h.Name(), n))
+			rel = filepath.Join(witnessRel, fmt.Sprintf("%s-%s-hang-%d.json", r.prop, h.Name(), n))
 		}
 		path = filepath.Join(verifDir, rel)
 	}
